@@ -1004,4 +1004,340 @@ theorem crashDiskAt_mem (nd : Node) (ops : List Op) (n : Nat) : crashDiskAt nd o
     · exact List.mem_append_left _ (mem_prefixDisks_take _ _ _)
     · exact List.mem_append_right _ (ih _ _)
 
+/-! ### contiguity: no holes in the log (C35 storage contract, C36 crash disks) -/
+
+/-- consecutive indices: no hole inside the log -/
+def Consec : List Entry → Prop
+  | [] => True
+  | [_] => True
+  | a :: b :: r => b.id.index = a.id.index + 1 ∧ Consec (b :: r)
+
+theorem Consec.tail {a : Entry} {l : List Entry} (h : Consec (a :: l)) : Consec l := by
+  cases l with
+  | nil => trivial
+  | cons b r => exact h.2
+
+theorem consec_cons {a : Entry} {l : List Entry} (hl : Consec l)
+    (hh : ∀ b, l.head? = some b → b.id.index = a.id.index + 1) : Consec (a :: l) := by
+  cases l with
+  | nil => trivial
+  | cons b r => exact ⟨hh b rfl, hl⟩
+
+theorem consec_sorted {l : List Entry} (h : Consec l) : Sorted l := by
+  induction l with
+  | nil => exact Sorted.nil
+  | cons a l ih =>
+    have hs := ih h.tail
+    refine List.pairwise_cons.2 ⟨?_, hs⟩
+    intro z hz
+    cases l with
+    | nil => cases hz
+    | cons b r =>
+      simp only [List.mem_cons] at hz
+      have hab : b.id.index = a.id.index + 1 := h.1
+      rcases hz with rfl | hz
+      · omega
+      · have := (List.pairwise_cons.1 hs).1 z hz; omega
+
+/-- inserting above every present index appends -/
+theorem insertEntry_above {log : List Entry} {e : Entry} (h : ∀ x ∈ log, x.id.index < e.id.index) :
+    insertEntry log e = log ++ [e] := by
+  induction log with
+  | nil => rfl
+  | cons y ys ih =>
+    have hy := h y (by simp)
+    have h1 : ¬ e.id.index < y.id.index := by omega
+    have h2 : ¬ e.id.index = y.id.index := by omega
+    simp only [insertEntry, h1, h2, if_false, List.cons_append]
+    rw [ih (fun x hx => h x (List.mem_cons_of_mem _ hx))]
+
+theorem appendLog_above {log es : List Entry} (hes : Sorted es)
+    (h : ∀ x ∈ log, ∀ e ∈ es, x.id.index < e.id.index) : appendLog log es = log ++ es := by
+  induction es generalizing log with
+  | nil => simp [appendLog]
+  | cons e es ih =>
+    have he : ∀ z ∈ es, e.id.index < z.id.index := (List.pairwise_cons.1 hes).1
+    show appendLog (insertEntry log e) es = _
+    rw [insertEntry_above (fun x hx => h x hx e (by simp))]
+    rw [ih (List.pairwise_cons.1 hes).2]
+    · simp
+    · intro x hx z hz
+      simp only [List.mem_append, List.mem_singleton] at hx
+      rcases hx with hx | rfl
+      · exact h x hx z (List.mem_cons_of_mem _ hz)
+      · exact he z hz
+
+theorem consec_append {l₁ l₂ : List Entry} (h₁ : Consec l₁) (h₂ : Consec l₂)
+    (hj : ∀ a, l₁.getLast? = some a → ∀ b, l₂.head? = some b → b.id.index = a.id.index + 1) :
+    Consec (l₁ ++ l₂) := by
+  induction l₁ with
+  | nil => simpa using h₂
+  | cons a l ih =>
+    cases l with
+    | nil =>
+      simp only [List.cons_append, List.nil_append]
+      exact consec_cons h₂ (fun b hb => hj a rfl b hb)
+    | cons b r =>
+      simp only [List.cons_append]
+      refine ⟨h₁.1, ?_⟩
+      have := ih h₁.2 (fun a' ha' => hj a' (by rw [List.getLast?_cons_cons]; exact ha'))
+      simpa using this
+
+/-- truncating a hole-free log keeps a hole-free prefix -/
+theorem consec_trunc {l : List Entry} (h : Consec l) (i : Nat) : Consec (truncLog l i) := by
+  induction l with
+  | nil => trivial
+  | cons a l ih =>
+    have hs := consec_sorted h
+    have ha : ∀ z ∈ l, a.id.index < z.id.index := (List.pairwise_cons.1 hs).1
+    unfold truncLog
+    by_cases hai : a.id.index < i
+    · simp only [List.filter_cons, hai, decide_true, if_true]
+      refine consec_cons (ih h.tail) ?_
+      intro b hb
+      cases l with
+      | nil => simp at hb
+      | cons c r =>
+        by_cases hci : c.id.index < i
+        · simp only [List.filter_cons, hci, decide_true, if_true, List.head?_cons, Option.some.injEq] at hb
+          subst hb; exact h.1
+        · have hnil : (c :: r).filter (fun e => decide (e.id.index < i)) = [] := by
+            simp only [List.filter_eq_nil_iff, decide_eq_true_eq]
+            intro z hz
+            have hsl := consec_sorted h.tail
+            simp only [List.mem_cons] at hz
+            rcases hz with rfl | hz
+            · exact hci
+            · have := (List.pairwise_cons.1 hsl).1 z hz; omega
+          rw [hnil] at hb; simp at hb
+    · have hnil : (a :: l).filter (fun e => decide (e.id.index < i)) = [] := by
+        simp only [List.filter_eq_nil_iff, decide_eq_true_eq]
+        intro z hz
+        simp only [List.mem_cons] at hz
+        rcases hz with rfl | hz
+        · exact hai
+        · have := ha z hz; omega
+      rw [hnil]; trivial
+
+/-- purging a hole-free log whose first index is at most `i+1` leaves a hole-free suffix starting at `i+1` -/
+theorem consec_purge {l : List Entry} (h : Consec l) (i : Nat)
+    (hf : ∀ f, l.head? = some f → f.id.index ≤ i + 1) :
+    Consec (purgeLog l i) ∧ ∀ f, (purgeLog l i).head? = some f → f.id.index = i + 1 := by
+  induction l with
+  | nil => exact ⟨trivial, by intro f hf'; simp [purgeLog] at hf'⟩
+  | cons a l ih =>
+    have hs := consec_sorted h
+    have ha : ∀ z ∈ l, a.id.index < z.id.index := (List.pairwise_cons.1 hs).1
+    have hai := hf a rfl
+    unfold purgeLog
+    by_cases hia : i < a.id.index
+    · have hall : (a :: l).filter (fun e => decide (i < e.id.index)) = a :: l := by
+        apply List.filter_eq_self.2
+        intro z hz
+        simp only [List.mem_cons] at hz
+        rcases hz with rfl | hz
+        · simpa using hia
+        · have := ha z hz; simp; omega
+      rw [hall]
+      exact ⟨h, by intro f hf'; simp at hf'; subst hf'; omega⟩
+    · simp only [List.filter_cons, hia, decide_false, Bool.false_eq_true, if_false]
+      apply ih h.tail
+      intro f hf'
+      cases l with
+      | nil => simp at hf'
+      | cons b r =>
+        simp only [List.head?_cons, Option.some.injEq] at hf'
+        rw [← hf']
+        have : b.id.index = a.id.index + 1 := h.1
+        omega
+
+theorem trunc_head {l : List Entry} (hs : Sorted l) (i : Nat) {f : Entry}
+    (h : (truncLog l i).head? = some f) : l.head? = some f := by
+  cases l with
+  | nil => simp [truncLog] at h
+  | cons a l =>
+    have ha : ∀ z ∈ l, a.id.index < z.id.index := (List.pairwise_cons.1 hs).1
+    unfold truncLog at h
+    by_cases hai : a.id.index < i
+    · simp only [List.filter_cons, hai, decide_true, if_true, List.head?_cons] at h
+      simpa using h
+    · have hnil : (a :: l).filter (fun e => decide (e.id.index < i)) = [] := by
+        simp only [List.filter_eq_nil_iff, decide_eq_true_eq]
+        intro z hz
+        simp only [List.mem_cons] at hz
+        rcases hz with rfl | hz
+        · exact hai
+        · have := ha z hz; omega
+      rw [hnil] at h; simp at h
+
+/-- no hole in the log: consecutive indices, and the first entry comes right after the purge marker -/
+def LogStore.NoHole (s : LogStore) : Prop :=
+  Consec s.log ∧ ∀ p, s.lastPurged = some p → ∀ f, s.log.head? = some f → f.id.index = p.index + 1
+
+/-- openraft's full calling discipline on the log half: entries are appended consecutively right after
+the last log id (last entry, else purge marker); a purge never starts below the first entry minus one -/
+def LogOp.Full (s : LogStore) : LogOp → Prop
+  | .saveVote _ => True
+  | .append es => Consec es ∧ ∀ f, es.head? = some f →
+      match s.log.getLast? with
+      | some l => f.id.index = l.id.index + 1
+      | none => ∀ p, s.lastPurged = some p → f.id.index = p.index + 1
+  | .deleteConflictSince _ => True
+  | .purgeUpto id => ∀ f, s.log.head? = some f → f.id.index ≤ id.index + 1
+
+def LogOpsFull (s : LogStore) : List LogOp → Prop
+  | [] => True
+  | op :: ops => op.Full s ∧ LogOpsFull (s.step op) ops
+
+theorem LogStore.noHole_init : (({} : LogStore)).NoHole := ⟨trivial, by intro p hp; cases hp⟩
+
+theorem head_le_of_sorted {l : List Entry} (hs : Sorted l) {f e : Entry} (hf : l.head? = some f) (he : e ∈ l) :
+    f.id.index ≤ e.id.index := by
+  cases l with
+  | nil => cases he
+  | cons a r =>
+    simp only [List.head?_cons, Option.some.injEq] at hf
+    subst hf
+    simp only [List.mem_cons] at he
+    rcases he with rfl | he
+    · exact Nat.le_refl _
+    · exact Nat.le_of_lt ((List.pairwise_cons.1 hs).1 e he)
+
+theorem LogStore.noHole_step {s : LogStore} (h : s.NoHole) (op : LogOp) (hop : op.Full s) :
+    (s.step op).NoHole := by
+  obtain ⟨hc, hh⟩ := h
+  cases op with
+  | saveVote v => exact ⟨hc, hh⟩
+  | deleteConflictSince id =>
+    refine ⟨consec_trunc hc _, ?_⟩
+    intro p hp f hf
+    exact hh p hp f (trunc_head (consec_sorted hc) _ hf)
+  | purgeUpto id =>
+    obtain ⟨h1, h2⟩ := consec_purge hc id.index hop
+    refine ⟨h1, ?_⟩
+    intro p hp f hf
+    have : id = p := by simpa [LogStore.step, LogStore.purgeUpto] using hp
+    subst this
+    exact h2 f hf
+  | append es =>
+    obtain ⟨hes, hstart⟩ := hop
+    cases es with
+    | nil => exact ⟨hc, hh⟩
+    | cons e0 es' =>
+      have hsl := consec_sorted hc
+      have hse := consec_sorted hes
+      have hstart0 := hstart e0 rfl
+      -- every present index is below every appended one
+      have habove : ∀ x ∈ s.log, ∀ e ∈ e0 :: es', x.id.index < e.id.index := by
+        intro x hx e he
+        have h0 : e0.id.index ≤ e.id.index := head_le_of_sorted hse rfl he
+        cases hl : s.log.getLast? with
+        | none =>
+          have := List.getLast?_eq_none_iff.1 hl
+          rw [this] at hx; cases hx
+        | some l =>
+          rw [hl] at hstart0
+          have := sorted_getLast_max hsl hx hl
+          simp only at hstart0
+          omega
+      have happ : (s.step (.append (e0 :: es'))).log = s.log ++ e0 :: es' := appendLog_above hse habove
+      refine ⟨?_, ?_⟩
+      · rw [happ]
+        apply consec_append hc hes
+        intro a ha b hb
+        simp only [List.head?_cons, Option.some.injEq] at hb
+        subst hb
+        rw [ha] at hstart0
+        exact hstart0
+      · intro p hp f hf
+        have hp' : s.lastPurged = some p := hp
+        rw [happ] at hf
+        cases hlog : s.log with
+        | nil =>
+          rw [hlog] at hf
+          simp only [List.nil_append, List.head?_cons, Option.some.injEq] at hf
+          subst hf
+          have hl : s.log.getLast? = none := by rw [hlog]; rfl
+          rw [hl] at hstart0
+          exact hstart0 p hp'
+        | cons a r =>
+          rw [hlog] at hf
+          simp only [List.cons_append, List.head?_cons, Option.some.injEq] at hf
+          subst hf
+          exact hh p hp' a (by rw [hlog]; rfl)
+
+theorem LogStore.noHole_run {s : LogStore} (h : s.NoHole) (ops : List LogOp) (hops : LogOpsFull s ops) :
+    (s.run ops).NoHole := by
+  induction ops generalizing s with
+  | nil => exact h
+  | cons op ops ih => exact ih (noHole_step h op hops.1) hops.2
+
+/-! ### no hole on the persistent store's disk at any crash point -/
+
+/-- the log-store call an operation of the persistent store performs on the log half, if any -/
+def Op.toLogOp : Op → Option LogOp
+  | .saveVote v => some (.saveVote v)
+  | .append es => some (.append es)
+  | .purge id => some (.purgeUpto id)
+  | .deleteConflict id => some (.deleteConflictSince id)
+  | _ => none
+
+theorem step_ls (nd : Node) (op : Op) :
+    (step nd op).disk.ls = match op.toLogOp with
+      | some l => nd.disk.ls.step l
+      | none => nd.disk.ls := by
+  cases op with
+  | saveVote v => rw [step_disk, disk_saveVote]; rfl
+  | append es => rw [step_disk, disk_append]; rfl
+  | purge id => rw [step_disk, disk_purge]; rfl
+  | deleteConflict id => rw [step_disk, disk_deleteConflict]; rfl
+  | applyTo j => rfl
+  | beginSnapshot => rfl
+  | installSnapshot s => rfl
+  | finishSnapshot =>
+    simp only [Op.toLogOp, step_disk, writesOf]
+    cases nd.pending with
+    | none => rfl
+    | some p => cases h : staleBuild nd.disk p <;> simp [h, applyWrites, applyWrite, applyPrim]
+
+/-- the full log discipline, lifted to the operations of the persistent store -/
+def Op.Full (nd : Node) (op : Op) : Prop :=
+  match op.toLogOp with
+  | some l => l.Full nd.disk.ls
+  | none => True
+
+def OpsFull (nd : Node) : List Op → Prop
+  | [] => True
+  | op :: ops => op.Full nd ∧ OpsFull (step nd op) ops
+
+theorem step_noHole {nd : Node} (h : nd.disk.ls.NoHole) (op : Op) (hop : op.Full nd) :
+    (step nd op).disk.ls.NoHole := by
+  rw [step_ls]
+  unfold Op.Full at hop
+  cases hl : op.toLogOp with
+  | none => exact h
+  | some l => rw [hl] at hop; exact LogStore.noHole_step h l hop
+
+theorem crash_noHole {nd : Node} (h : nd.disk.ls.NoHole) (ops : List Op) (hok : OpsFull nd ops) :
+    ∀ d ∈ crashDisks nd ops, d.ls.NoHole := by
+  induction ops generalizing nd with
+  | nil => intro d hd; simp only [crashDisks, List.mem_singleton] at hd; subst hd; exact h
+  | cons op ops ih =>
+    intro d hd
+    simp only [crashDisks, List.mem_append] at hd
+    have hnext := step_noHole h op hok.1
+    rcases hd with hd | hd
+    · rcases writesOf_le_one nd op with hw | ⟨w, hw⟩
+      · rw [hw] at hd
+        simp only [prefixDisks, List.mem_singleton] at hd
+        subst hd; exact h
+      · rw [hw] at hd
+        simp only [prefixDisks, List.mem_cons, List.not_mem_nil, or_false] at hd
+        rcases hd with rfl | rfl
+        · exact h
+        · have : applyWrite nd.disk w = (step nd op).disk := by
+            rw [step_disk, hw]; rfl
+          rw [this]; exact hnext
+    · exact ih hnext hok.2 d hd
+
 end Varpulis.RaftStore
